@@ -148,6 +148,11 @@ def mpl_1d_case(ctx, index, rng: random.Random):
         handler_xlim = (unit, win)
     if hk == "gapped" and (kind == "step" or cumulative or density and cumulative):
         kind = "bar"
+    if kind in ("bar", "scatter") and rng.random() < 0.3:
+        # colours from a colour map (round 11): the colour scale works on the array the marks are drawn from
+        opts["cmap"] = rng.choice(["viridis", "Greys"])
+        if rng.random() < 0.6 and bool(np.any(np.asarray(h.frequencies) > 0)):
+            opts["cmap_normalize"] = "log"
     desc = {"backend": "matplotlib", "kind": kind, "opts": {k: (v if not callable(v) else "TimeTickHandler") for k, v in opts.items()}, "class": type(h).__name__,
             "bins": np.asarray(h.bins).tolist(), "frequencies": np.asarray(h.frequencies).tolist()}
     rec.mon("C20.artists")
@@ -289,6 +294,11 @@ def mpl_2d_case(ctx, index, rng: random.Random):
             opts["show_values"] = True
     if rng.random() < 0.5:
         opts["show_colorbar"] = False
+    log_scale = False
+    if kind == "image" and bool(np.any(np.asarray(h.frequencies) > 0)) and rng.random() < 0.4:
+        # logarithmic colour scale (round 11), images only: see DESIGN round 11 for the map observation that was left unclassified
+        log_scale = True
+        opts["cmap_normalize"] = "log"
     over = {}
     if rng.random() < 0.3:
         over = {"ylabel": "Override Y"}
@@ -375,7 +385,7 @@ def mpl_2d_case(ctx, index, rng: random.Random):
                 fail("axis labels do not come from the axis names / overrides", ["labels"], got=[ax.get_xlabel(), ax.get_ylabel()])
     finally:
         plt.close("all")
-    rec.case(desc, h.shape[0] != h.shape[1] or bool(opts), cls=f"mpl/{kind}{'/density' if density else ''}{'/nozero' if not show_zero else ''}{'/values' if show_values else ''}",
+    rec.case(desc, h.shape[0] != h.shape[1] or bool(opts), cls=f"mpl/{kind}{'/density' if density else ''}{'/nozero' if not show_zero else ''}{'/values' if show_values else ''}{'/log' if log_scale else ''}",
              sample={"kind": kind, "opts": desc["opts"], "shape": desc["shape"]})
 
 
